@@ -264,6 +264,35 @@ def run(chk, facts, tier, only=None):
                                where=f"{h['span']['file']}:{n.get('ln')}",
                                ok_detail="memo snapshot restored on the failure side")
         chk.floor("swallowed recursive checks (probes)", nprobe, 1)
+        # one memo, one relation: gamma holds pairs *assumed* related; a pair assumed equal is not evidence for subtyping after the
+        # equality check failed (equal retracts the failing pair only), and vice versa.  No function hands the same memo to both.
+        n_entry = 0
+        for cname in ("candid", "candid_parser"):
+            cr = facts.crate(cname)
+            for k, hh in sorted(cr.hir.items()):
+                if hh.get("body") is None or k.startswith("candid::types::subtype::"):
+                    continue
+                uses = {}
+                for n in walk(hh["body"]):
+                    if n.get("k") == "call" and (callee(n) or "").startswith("candid::types::subtype::") and n.get("args"):
+                        fam = "equal" if re.search(r"::equal(_impl)?$", callee(n)) else "subtype"
+                        a0 = n["args"][0]
+                        while isinstance(a0, dict) and a0.get("k") in ("ref", "un"):
+                            a0 = a0.get("e") or a0.get("a")
+                        root = (expr_path(a0) or "?").split(".")[0]
+                        if re.search(r"Gamma|HashSet", str((n["args"][0] or {}).get("ty") or "")) or root == "gamma":
+                            uses.setdefault(root, set()).add(fam)
+                if uses:
+                    n_entry += 1
+                    chk.analysed(k)
+                shared = sorted(r_ for r_, f_ in uses.items() if len(f_) > 1)
+                if uses:
+                    chk.expect(not shared, f"memo:one-relation:{hh['name']}",
+                               f"{k} passes the same memo `{shared}` to both the equality and the subtype check: assumptions recorded while the "
+                               f"first relation was explored (and not retracted when it failed) are trusted by the second, so the verdict can be "
+                               f"`compatible` for a pair that is not in the relation", where=f"{hh['span']['file']}:{hh['span']['lo']}",
+                               ok_detail=f"memo(s) {sorted(uses)} used for one relation each")
+        chk.floor("functions that start a subtype / equality check with a memo", n_entry, 3)
 
     def structural_rule(which):
         load()
@@ -435,3 +464,6 @@ def run(chk, facts, tier, only=None):
         if only and only != rid:
             continue
         chk.run_rule(rid, desc, fn)
+    if only is None:
+        import c02
+        chk.include(c02, "C02.R2", "C05.R7", facts)     # "missing field tolerated iff opt/null/reserved", decided on the resolved type at every site
